@@ -534,6 +534,7 @@ def run_target(ctx: Ctx, target: str, quick_runs: int, thorough_runs: int,
                f"-runs={runs}", f"-seed={max(1, seed)}",
                f"-max_len={max_len}", f"-dict={dict_path}",
                f"-artifact_prefix={tmp}/", "-print_final_stats=0",
+               f"-max_total_time={ctx.pick(150, 900)}",
                "-verbosity=0", corpus]
         env = dict(os.environ)
         r = subprocess.run(cmd, cwd=VERIF_DIR, env=env, capture_output=True,
@@ -554,6 +555,10 @@ def run_target(ctx: Ctx, target: str, quick_runs: int, thorough_runs: int,
                 f"fuzz driver {target} exited with {r.returncode}:\n"
                 f"{(r.stdout + r.stderr)[-3000:]}")
         ctx.rec.bulk(int(stats["execs"]))
+        if int(stats["execs"]) < runs - 2000 and not viols:
+            # the campaign is bounded by its number of runs; the wall-clock
+            # cap only stops a corpus that drifted to slow inputs
+            ctx.rec.inconc(f"{sub}_time_cap")
         for lab, c in stats["labels"].items():
             ctx.rec.label(f"{sub}.{lab}", c)
         ctx.rec.nontrivial.update(stats["hashes"])
